@@ -309,6 +309,35 @@ func sub(s string, n int) string {
 	return s[:n]
 }
 
+// counted operand helpers: cn tells how often an operand of an assignment target was evaluated.
+var cn int
+
+func nx(n int) int {
+	cn++
+	if n <= 0 {
+		return 0
+	}
+	return cn % n
+}
+
+func kx() string {
+	cn++
+	if cn%2 == 0 {
+		return "k"
+	}
+	return "a"
+}
+
+func getp(q *P) *P {
+	cn++
+	return q
+}
+
+func getpi(q *int) *int {
+	cn++
+	return q
+}
+
 func fclamp(f float64) float64 {
 	if f != f || f > 1e9 || f < -1e9 {
 		return 1.5
